@@ -306,12 +306,17 @@ startConn:
 		c.debug.Printf("connecting to %s... (sts: %v, config-ssl: %v)", addr, c.state.sts.enabled(), c.Config.SSL)
 		conn, err := newConn(c.Config, dialer, addr, &c.state.sts)
 		if err != nil {
+			fallback := false
 			if _, ok := err.(*ErrSTSUpgradeFailed); ok {
-				if !c.state.sts.enabled() {
-					c.RunHandlers(&Event{Command: STS_ERR_FALLBACK})
-				}
+				fallback = !c.state.sts.enabled()
 			}
 			c.mu.Unlock()
+
+			// Handlers may call back into the client, so run them without
+			// holding the mutex.
+			if fallback {
+				c.RunHandlers(&Event{Command: STS_ERR_FALLBACK})
+			}
 			return err
 		}
 
